@@ -530,7 +530,7 @@ def run_unit(unit):
 
 
 def check(ctx):
-    N = ctx.pick(3, 4)
+    N = ctx.pick(3, 5)
     units = [("arith", a, b, N) for a, b in PAIRS]
     units += [("cmp", k, N) for k in BASE]
     units += [("red", k, N + 1) for k in BASE]
